@@ -14,7 +14,7 @@ CHECKS = {
          'memkv for goleveldb; the destination-hub role is explored by C02 (pair remote->local)', '5 C04'),
  'C06': ('icmc', 'model_checking',
          'explicit-state BFS over block histories with timeouts on the real executor against an expiry model',
-         'All block histories up to depth 5 (thorough 7) of requests with T in {0,1,2,(3,huge,-1)}, receipts before/in/after the expiry block, shared expiry heights, begin-failed requests, reopen between H and H+T; per block the timeout notifications and all statuses are compared with the model; plus one-to-many groups (2 and 3 children, a later child refused at begin, receipts) with T=2/3: a group is listed as timed out exactly in block H+T of its first accepted child if it neither completed nor failed before; two groups from two source services with identical destination->index maps on one world stay independent.',
+         'All block histories up to depth 5 (thorough 7) of requests with T in {0,1,2,(3,huge,-1)}, receipts before/in/after the expiry block, shared expiry heights, begin-failed requests, reopen between H and H+T; per block the timeout notifications and all statuses are compared with the model; plus one-to-many groups (2 and 3 children, a later child refused at begin, receipts) with T=2/3: a group is listed as timed out exactly in block H+T of its first accepted child if it neither completed nor failed before; two groups from two source services with identical destination->index maps on one world stay independent; a further BFS (one step shallower) on a world with a remote BitXHub: requests from the remote hub to a local service (the timeout runs here and is announced through the union pier) and from a local service to the remote hub (no timeout on the source hub).',
          'memkv for goleveldb; the block carrying a contradicting late receipt of a group is not judged (implementation-defined, see C05)', '5 C06'),
  'C09': ('chainmc', 'model_checking',
          'explicit-state BFS over block/rollback/re-execute/reopen histories on the real executor+ledger with full index re-derivation',
@@ -64,11 +64,11 @@ CHECKS.update({
 CHECKS.update({
  'C03': ('probemc', 'model_checking',
          'exhaustive product origin x rule x proof variant x block position x proof-checking mode on the real executor, decided differentially; exhaustive short sequences of direct entry-point calls',
-         '40 (origin, rule, proof) variants — accept-all rule, erroring rule, deployed WASM rule answering plain true/false, receipts against the destination rule, unregistered / logged-out origin, remote BitXHub with 0..4 distinct registered signers, duplicates, unregistered signers, signatures over another status / IBTP, garbage proof — x {alone, first, last} x {serial, parallel}: an IBTP failing the predicate must get a FAILED receipt and change nothing but nonce/fee, one satisfying it must be accepted; all sequences of <=2 direct calls of the interchain entry points by an outsider (audit off/on) must not process an IBTP. Worker subprocesses detect node crashes.',
+         '40 (origin, rule, proof) variants — accept-all rule, erroring rule, deployed WASM rule answering plain true/false, receipts against the destination rule (also of a destination chain logged out after the request was accepted), unregistered / logged-out origin, remote BitXHub with 0..4 distinct registered signers, duplicates, unregistered signers, signatures over another status / IBTP, garbage proof — x {alone, first, last} x {serial, parallel}: an IBTP failing the predicate must get a FAILED receipt and change nothing but nonce/fee, one satisfying it must be accepted; all sequences of <=2 direct calls of the interchain entry points by an outsider (audit off/on) must not process an IBTP. Worker subprocesses detect node crashes.',
          'WASM rule assembled from WAT at run time; SimFabric rule stands for an erroring rule; rule update pending/approved/rejected are variants', '5 C03'),
  'C08': ('probemc', 'model_checking',
          'bounded-exhaustive input enumeration (payload truncations, field-replacement menus, argument vectors for every reflected method) executed on the real executor in crash-attributing worker subprocesses',
-         'Every payload truncation and 13+ field replacements of one well-formed transaction of 6 kinds, 24 (type, vm) pairs each, 60 IBTP field mutations, and for all 572 dispatchable methods argument vectors of length 0, n-1, n, n+1 from 4 domains (quick: one third of these), each first/last in a block beside two valid transactions and followed by two blocks; oracle: process survives, one receipt per transaction in order with its hash, valid neighbours succeed, height +1, following blocks execute.',
+         'Every payload truncation and 13+ field replacements of one well-formed transaction of 6 kinds, 24 (type, vm) pairs each, 60 IBTP field mutations, and for all 572 dispatchable methods argument vectors of length 0, n-1, n, n+1 from 4 domains (quick: one third of these), plus 9 succeeding / failing transactions of every execution path sent by two senders that cannot pay the fee, each first/last in a block beside two valid transactions and followed by two blocks; oracle: process survives, one receipt per transaction in order with its hash, valid neighbours succeed, height +1, following blocks execute.',
          'finite mutation menu (listed in the evidence rule); EVM transactions not mutated', '5 C08'),
 })
 CHECKS.update({
